@@ -140,7 +140,7 @@ def run(chk, tier, seed):
         finally:
             if os.path.exists(hook_trace):
                 os.unlink(hook_trace)
-        nimg = 18 if quick else 72
+        nimg = 21 if quick else 84
         imgjobs = []
         for k in range(nimg):
             fmt, enc, spt = [("hfe", "FM", 10), ("hfe", "MFM", 18), ("mfm", "MFM", 18)][k % 3]
@@ -162,8 +162,10 @@ def run(chk, tier, seed):
             for t in range(ntr):
                 secs = {r: bytes(img[(t * spt + r) * 256:(t * spt + r + 1) * 256]) for r in range(spt)}
                 tk = mkflux.build_track(enc, t, 0, secs, order=list(range(spt)))
-                special = k // 3 % 6          # 0: random damage; 1: last record lost on one track; 2: last record lost on every track;
+                special = k // 3 % 7          # 0: random damage; 1: last record lost on one track; 2: last record lost on every track;
                                               # 3: first record lost on one track, last on the one before; 4: first two records lost on one track
+                                              # 6: every track loses one record - the last on track 0, the first on all the others -
+                                              #    so the counts agree, the image mounts, and (t, 0) is simply absent for t > 0
                 if special == 1 and t == 3:
                     mkflux.damage(tk, 2 * spt - 1, "crc", rr)
                     damaged.setdefault(t, set()).add(spt - 1)
@@ -173,6 +175,10 @@ def run(chk, tier, seed):
                 elif special == 2 and t == 0:
                     mkflux.damage(tk, 2 * spt - 1, "crc", rr)
                     damaged.setdefault(t, set()).add(spt - 1)
+                elif special == 6:
+                    item = (2 * spt - 1) if t == 0 else (1 if t % 2 else 0)      # data field or ID field of the record
+                    mkflux.damage(tk, item, "crc", rr)
+                    damaged.setdefault(t, set()).add(item // 2)
                 elif special == 3 and t in (2, 3):
                     item = (2 * spt - 1) if t == 2 else 1
                     mkflux.damage(tk, item, "crc", rr)
@@ -223,14 +229,14 @@ def run(chk, tier, seed):
             # (not judged when every track lost the same last record: nothing on the disc then says how many sectors a track
             # had, the statement's image-level claim is about reads of (track, sector), which the loop above covers)
             o = common.run([dfs, "--file", path, "type", "--binary", "ALL"], timeout=120)
-            if k // 3 % 6 == 2:
+            if k // 3 % 7 in (2, 6):
                 pass
             elif o.rc == 0:
                 wrong = sum(1 for i in range(0, len(o.out), 256) if o.out[i:i + 256] != bytes(img[(2 + i // 256) * 256:(3 + i // 256) * 256]))
                 result = 1 if wrong == 0 and len(o.out) == (total - 2) * 256 else 2
             else:
                 result = 0 if (o.ok_alphabet() and o.err.strip()) else 2
-            if k // 3 % 6 != 2:
+            if k // 3 % 7 not in (2, 6):
               evs.append(dict(e="read", fmt=fmt, enc=enc, img=k, t=-1, s=-1, result=result, damaged=1 if damaged else 0, track_damaged=1, mounted=1 if mounted else 0,
                               file="ALL"))
             os.unlink(path)
